@@ -127,6 +127,7 @@ func run(c Case) (pbt.Result, error) {
 		res.Class("mutation:%s", c.Desc)
 	}
 	kinds(a, &res, "a")
+	res.Class("list-padding-dirty:%v", c.PlanA.PadFill != 0 || c.PlanB.PadFill != 0)
 	res.Nontrivial = want != ref.Unspecified && ((c.Mode == "layout" && want == ref.IsEqual) || (c.Mode == "mutant" && want == ref.NotEqual))
 
 	got, err := capnp.Equal(pa, pb)
@@ -243,6 +244,12 @@ func genCase(t *rapid.T) Case {
 		c.AJ, c.BJ = c.BJ, c.AJ
 	}
 	c.PlanA, c.PlanB = gen.Plan(t, 3), gen.Plan(t, 3)
+	// a quarter of the pairs: the padding of bit/primitive lists (unused bits of the last
+	// byte, bytes up to the word boundary) is not zero, differently on the two sides
+	if rapid.IntRange(0, 3).Draw(t, "padfill") == 0 {
+		c.PlanA.PadFill = byte(rapid.SampledFrom([]int{0, 0xff, 0xa5, 0xf0}).Draw(t, "padA"))
+		c.PlanB.PadFill = byte(rapid.SampledFrom([]int{0, 0xff, 0x5a, 0x80}).Draw(t, "padB"))
+	}
 	c.SameMsg = rapid.IntRange(0, 2).Draw(t, "samemsg") == 0
 	caps := func(label string) []int {
 		return rapid.SliceOfN(rapid.IntRange(-1, 2), 0, 6).Draw(t, label)
